@@ -10,6 +10,15 @@ E3 = 'TLC model checking of a TLA+ model generated from the documented tables, w
 
 # pid -> (engine, technique, level text, note, design_ref)
 CHECKS = {
+    'C03': ('E1', E1,
+            'Every set partition of each 7-pixel support (bar, L, plus, two blobs) into <= 3/4 blocks - including interleaved segments '
+            'whose bounding boxes overlap or coincide - crossed with three plane chains (one pupil; two pupils; two segmented pupils '
+            'partitioned differently), with and without fit_tilt, and two propagation settings: field and intensity must equal those '
+            'of the monolithic description (and the reference sum) sample by sample, and intensity = |field|^2, which fails exactly '
+            'when overlapping contributions are added as intensities. A second sub-tree feeds the cropped sub-arrays and their slice '
+            'offsets to dft2(offset=) and to Fields and compares with the whole array.',
+            'Trusted: numpy; one-pixel segments are a recorded known finding; supports avoid the array-centre pixel.',
+            'DESIGN.md section 4 C03'),
     'C04': ('E1+E2', E1 + '; ' + E2 + ' (orderings of tilt elements, fit/update histories)',
             'Five tilt representations (OPD ramp, Tilt plane after/before the pupil, Wavefront(tilt=), fit_tilt) over pupils, '
             'monolithic and two-segment apertures incl. per-segment tilts, square and per-axis input/output pixel scales, oversample '
